@@ -25,6 +25,7 @@ pub struct Ctx {
     pub shard: u64,
     pub nshards: u64,
     pub seed: i64,
+    pub trace_path: Option<String>,
     trace: Option<std::cell::RefCell<std::fs::File>>,
 }
 impl Ctx {
@@ -178,6 +179,7 @@ fn main() {
             shard: s,
             nshards: n,
             seed,
+            trace_path: trace.clone(),
             trace: trace.map(|p| {
                 std::cell::RefCell::new(
                     std::fs::OpenOptions::new()
